@@ -53,11 +53,21 @@ def gen_cases(seed, n_cases):
         yield (ci, kinds[ci % 5]), {"kind": kinds[ci % 5], "n": int(rng.integers(1, 81)) if ci % 7 else 80, "nt": int(rng.integers(1, 6)), "seed": int(rng.integers(1 << 30)), "ctf": ["gctf", "ctffind4", None][ci % 3]}
 
 
-def _write_gctf(path, du, dv, ang, phase=None):
+def _write_gctf(path, du, dv, ang, phase=None, order=None):
+    """gctf / RELION STAR file; `order` (a seed) permutes the labelled columns and adds an unrelated one -- STAR columns are
+    identified by label, not by position"""
+    cols = {"rlnMicrographName": [f"img_{i:03d}.mrc" for i in range(len(du))], "rlnDefocusU": [f"{x:.6f}" for x in du],
+            "rlnDefocusV": [f"{x:.6f}" for x in dv], "rlnDefocusAngle": [f"{x:.6f}" for x in ang]}
+    if phase is not None:
+        cols["rlnPhaseShift"] = [f"{x:.6f}" for x in phase]
+    names = list(cols)
+    if order is not None:
+        cols["rlnFinalResolution"] = [f"{3.0 + 0.125 * i:.6f}" for i in range(len(du))]
+        names = [str(x) for x in np.random.default_rng(order).permutation(list(cols))]
     with open(path, "w") as f:
-        f.write("\ndata_\n\nloop_\n_rlnMicrographName #1\n_rlnDefocusU #2\n_rlnDefocusV #3\n_rlnDefocusAngle #4\n" + ("_rlnPhaseShift #5\n" if phase is not None else ""))
+        f.write("\ndata_\n\nloop_\n" + "".join(f"_{c} #{j + 1}\n" for j, c in enumerate(names)))
         for i in range(len(du)):
-            f.write(f"img_{i:03d}.mrc {du[i]:.6f} {dv[i]:.6f} {ang[i]:.6f}" + (f" {phase[i]:.6f}" if phase is not None else "") + "\n")
+            f.write(" ".join(cols[c][i] for c in names) + "\n")
         f.write("\n")
 
 
@@ -153,7 +163,7 @@ def run_case(c):
             du, dv = rng.uniform(10000, 60000, n), rng.uniform(10000, 60000, n); ang = rng.uniform(-90, 90, n); ph = rng.uniform(0, 3, n)
             pg, pc = os.path.join(tmp, "gctf.star"), os.path.join(tmp, "ctffind.txt")
             use_phase = bool(c["seed"] % 2)
-            _write_gctf(pg, du, dv, ang, ph if use_phase else None); _write_ctffind(pc, du, dv, ang, ph)
+            _write_gctf(pg, du, dv, ang, ph if use_phase else None, order=(c["seed"] if (c["seed"] // 2) % 2 else None)); _write_ctffind(pc, du, dv, ang, ph)
             for path, ft, php in ((pg, "gctf", ph if use_phase else np.zeros(n)), (pc, "ctffind4", ph)):
                 df, e = call(ioutils.defocus_load, path, ft)
                 if e is not None:
@@ -181,7 +191,7 @@ def run_case(c):
             du, dv = rng.uniform(10000, 60000, k), rng.uniform(10000, 60000, k)
             np.savetxt(os.path.join(tmp, f"ts_{t:03d}.tlt"), tl, fmt="%.2f"); np.savetxt(os.path.join(tmp, f"ts_{t:03d}_dose.txt"), ds, fmt="%.2f")
             if c["ctf"] == "gctf":
-                _write_gctf(os.path.join(tmp, f"ts_{t:03d}_ctf.star"), du, dv, np.zeros(k))
+                _write_gctf(os.path.join(tmp, f"ts_{t:03d}_ctf.star"), du, dv, np.zeros(k), order=(c["seed"] + t if (c["seed"] // 2) % 2 else None))
             elif c["ctf"] == "ctffind4":
                 _write_ctffind(os.path.join(tmp, f"ts_{t:03d}_ctf.txt"), du, dv, np.zeros(k), np.zeros(k))
             per[t] = {"tilts": tl, "dose": ds, "def": (du + dv) / 2 * 1e-4, "dim": [int(v) for v in rng.integers(100, 900, 3)], "zs": float(np.round(rng.uniform(-30, 30), 1))}
